@@ -11,9 +11,10 @@ hooks = json.load(open(hooks_path)) if os.path.exists(hooks_path) else {
     "baseline_off_cmd": "cd /repo && env -u PYWBEM_VERIF /venv/bin/python -m pytest -ra -q -p no:cacheprovider --timeout=900 --continue-on-collection-errors",
     "source_commits": [], "add_only": True}
 checks, na, built = [], [], []
+integrated = set(open(os.path.join(V, 'manifest.d', 'INTEGRATED')).read().split())
 for p in props:
     frag = os.path.join(V, 'manifest.d', p + '.json')
-    if os.path.exists(frag) and os.path.exists(os.path.join(V, 'harness', p.lower() + '.py')):
+    if p in integrated and os.path.exists(frag) and os.path.exists(os.path.join(V, 'harness', p.lower() + '.py')):
         f = json.load(open(frag))
         if f.get('not_applicable'):
             na.append({"property_id": p, "reason": f['not_applicable']})
